@@ -44,7 +44,21 @@ func c10WorkloadPool() []string {
 
 var c10WorkloadProbesExtra = []string{"calix", "calic", "caliaaaa", "cal", "c", "calia+", "calia*", "cali+", "cali*", "tap", "tapz", "tapabc", "eth0", "lo"}
 
+// c10WorkloadPoolB: names whose distinguishing character (right after the common prefix) is punctuation that is
+// legal-ish in interface names and stresses child-chain naming (_ . - : @), plus digits of mixed length.
+func c10WorkloadPoolB() []string {
+	names := []string{"tap"}
+	for _, sep := range []string{"_", ".", "-", ":", "@"} {
+		names = append(names, "tap"+sep+"a", "tap"+sep+"b")
+	}
+	return append(names, "cali1", "cali2", "cali10", "cali20")
+}
+
+var c10WorkloadProbesExtraB = []string{"tap_", "tap_c", "tap:", "tap:c", "tap@", "tap.ab", "tap-", "tapa", "cali", "cali3", "cali100", "cali1a", "cali_", "eth0"}
+
 var c10HostPool = []string{"eth0", "eth1", "eth", "e"}
+var c10HostPoolB = []string{"br@1", "br@2", "br:1", "br:2", "br_1", "br_2", "br.1", "br1", "br10"}
+var c10HostProbesExtraB = []string{"br", "br@", "br@3", "br:", "br_", "br-1", "br2", "br100", "cali1", "tap_a", "lo"}
 var c10HostProbesExtra = []string{"eth00", "et", "eth+", "eth*", "e+", "lo", "cali1", "tapx", "caliab"}
 
 const c10Wildcard = "any-interface-at-all"
@@ -302,15 +316,30 @@ func TestVerif_C10(t *testing.T) {
 		}
 		c.Rule("states = (dataplane, dispatch renderer, set of configured interface names [, wildcard HEP]) layouts rendered by the real code; " +
 			"transitions = probe interface names executed through the rendered dispatch chains / verdict maps by nfsim (both directions); " +
-			"workload names: cali+{a,b}^0..3 plus tapa,tapab, every subset up to the bound plus each subset with one endpoint duplicated; " +
-			"host names: every subset of {eth0,eth1,eth,e} x wildcard x {normal, apply-on-forward, from-only, to-only}; non-trivial = layouts with >= 2 names sharing a prefix")
+			"workload names: pool A = cali+{a,b}^0..3 plus tapa,tapab; pool B = tap, tap{_ . - : @}{a,b}, cali1, cali2, cali10, cali20 (punctuation / mixed-length digits right after the common prefix); every subset of each pool up to the bound plus each subset with one endpoint duplicated; " +
+			"host names: every subset of {eth0,eth1,eth,e} and every subset (<=4 quick, <=5 thorough) of {br@1,br@2,br:1,br:2,br_1,br_2,br.1,br1,br10} x wildcard x {normal, apply-on-forward, from-only, to-only}; non-trivial = layouts with >= 2 names sharing a prefix")
 		c.Assume("per-endpoint chains are leaves (reaching one ends the evaluation); IPv4 rendering only: dispatch chains do not depend on the IP version")
 		c.Assume("for interfaces that match no workload prefix the workload dispatch chains' behaviour is not constrained by the statement (they are only entered for workload-prefixed interfaces); " +
 			"egress towards a workload interface through the host dispatch chains with a wildcard HEP is accepted either way")
 
-		pool := c10WorkloadPool()
-		wlProbes := append(append([]string{}, pool...), c10WorkloadProbesExtra...)
-		hostProbes := append(append([]string{}, c10HostPool...), c10HostProbesExtra...)
+		type namePool struct {
+			names  []string
+			probes []string
+			max    int
+		}
+		poolA, poolB := c10WorkloadPool(), c10WorkloadPoolB()
+		maxSet := c.Pick(4, 6)
+		wlPools := []namePool{
+			{poolA, append(append([]string{}, poolA...), c10WorkloadProbesExtra...), maxSet},
+			{poolB, append(append([]string{}, poolB...), c10WorkloadProbesExtraB...), maxSet},
+		}
+		hostPools := []namePool{
+			{c10HostPool, append(append([]string{}, c10HostPool...), c10HostProbesExtra...), len(c10HostPool)},
+			{c10HostPoolB, append(append([]string{}, c10HostPoolB...), c10HostProbesExtraB...), c.Pick(4, 5)},
+		}
+		// replay: all probes of both pools
+		wlProbes := c10UniqStr(append(append([]string{}, wlPools[0].probes...), wlPools[1].probes...))
+		hostProbes := c10UniqStr(append(append([]string{}, hostPools[0].probes...), hostPools[1].probes...))
 
 		if rf := c.ReplayFile(); rf != "" {
 			var d c10Detail
@@ -330,35 +359,40 @@ func TestVerif_C10(t *testing.T) {
 			return
 		}
 
-		maxSet := c.Pick(4, 6)
 		type job func(st *c10Stats) bool
 		var jobs []job
 		for _, kind := range []string{"ipt", "nft"} {
 			kind := kind
-			for _, names := range c10Subsets(pool, maxSet) {
-				names := names
-				jobs = append(jobs, func(st *c10Stats) bool { return c10RunWorkload(c, kind, names, wlProbes, st) })
-				if len(names) >= 2 {
-					c.Nontrivial(kind + "|wl|" + strings.Join(names, ","))
-				}
-				if len(names) >= 1 {
-					// the same set with one interface owned by two endpoints (every choice of the duplicated name)
-					for _, dup := range names {
-						dn := append(append([]string{}, names...), dup)
-						sort.Strings(dn)
-						jobs = append(jobs, func(st *c10Stats) bool { return c10RunWorkload(c, kind, dn, wlProbes, st) })
+			for _, wp := range wlPools {
+				wlProbes := wp.probes
+				for _, names := range c10Subsets(wp.names, wp.max) {
+					names := names
+					jobs = append(jobs, func(st *c10Stats) bool { return c10RunWorkload(c, kind, names, wlProbes, st) })
+					if len(names) >= 2 {
+						c.Nontrivial(kind + "|wl|" + strings.Join(names, ","))
+					}
+					if len(names) >= 1 {
+						// the same set with one interface owned by two endpoints (every choice of the duplicated name)
+						for _, dup := range names {
+							dn := append(append([]string{}, names...), dup)
+							sort.Strings(dn)
+							jobs = append(jobs, func(st *c10Stats) bool { return c10RunWorkload(c, kind, dn, wlProbes, st) })
+						}
 					}
 				}
 			}
 			for _, what := range []string{"host", "host-forward", "host-from", "host-to"} {
 				what := what
-				for _, names := range c10Subsets(c10HostPool, len(c10HostPool)) {
-					names := names
-					for _, wc := range []bool{false, true} {
-						wc := wc
-						jobs = append(jobs, func(st *c10Stats) bool { return c10RunHost(c, kind, what, names, wc, hostProbes, st) })
-						if len(names) >= 2 {
-							c.Nontrivial(fmt.Sprintf("%s|%s|%v|%s", kind, what, wc, strings.Join(names, ",")))
+				for _, hp := range hostPools {
+					hostProbes := hp.probes
+					for _, names := range c10Subsets(hp.names, hp.max) {
+						names := names
+						for _, wc := range []bool{false, true} {
+							wc := wc
+							jobs = append(jobs, func(st *c10Stats) bool { return c10RunHost(c, kind, what, names, wc, hostProbes, st) })
+							if len(names) >= 2 {
+								c.Nontrivial(fmt.Sprintf("%s|%s|%v|%s", kind, what, wc, strings.Join(names, ",")))
+							}
 						}
 					}
 				}
@@ -413,4 +447,16 @@ func TestVerif_C10(t *testing.T) {
 		c10Out.publish(c)
 		fmt.Printf("INFO C10 layouts=%d probes executed=%d\n", total.layouts, total.evals)
 	})
+}
+
+func c10UniqStr(in []string) []string {
+	seen := map[string]bool{}
+	var out []string
+	for _, x := range in {
+		if !seen[x] {
+			seen[x] = true
+			out = append(out, x)
+		}
+	}
+	return out
 }
